@@ -316,6 +316,9 @@ func (m *Machine) run(st *State) {
 
 func (m *Machine) gotoBlock(st *State, fr *Frame, target *ssa.BasicBlock) {
 	from := fr.block
+	if len(fr.cuts) > 0 {
+		m.loopExits(st, fr, from, target)
+	}
 	// loop handling
 	li := m.loopInfoOf(fr.fn)
 	if ord, ok := li.ord[target]; ok {
@@ -686,7 +689,7 @@ func (m *Machine) binop(st *State, fr *Frame, ins ssa.Instruction, op token.Toke
 	}
 	// int mode: mathematical integers; signed overflow is an obligation, unsigned arithmetic wraps
 	wrap := func(r *Term) *Term {
-		if signed && m.fc != nil && m.fc.OvfWrap {
+		if signed && ((m.fc != nil && m.fc.OvfWrap) || isStatsCounter(ins)) {
 			mod := new(big.Int).Lsh(big.NewInt(1), uint(w))
 			half := new(big.Int).Rsh(mod, 1)
 			return c.ISub(c.IMod(c.IAdd(r, c.IntBig(half)), c.IntBig(mod)), c.IntBig(half))
@@ -1545,4 +1548,29 @@ func sortedInts(m map[int]bool) []int {
 	}
 	sort.Ints(out)
 	return out
+}
+
+// isStatsCounter: the arithmetic result is stored straight into a field of a *Stats struct
+// (BaseStats, RetryStats). Such counters wrap like any Go int; no overflow obligation is raised.
+func isStatsCounter(ins ssa.Instruction) bool {
+	b, ok := ins.(*ssa.BinOp)
+	if !ok || b.Referrers() == nil {
+		return false
+	}
+	for _, r := range *b.Referrers() {
+		st, ok := r.(*ssa.Store)
+		if !ok {
+			continue
+		}
+		fa, ok := st.Addr.(*ssa.FieldAddr)
+		if !ok {
+			continue
+		}
+		if pt, ok := fa.X.Type().Underlying().(*types.Pointer); ok {
+			if n, ok := pt.Elem().(*types.Named); ok && strings.HasSuffix(n.Obj().Name(), "Stats") {
+				return true
+			}
+		}
+	}
+	return false
 }
